@@ -38,5 +38,75 @@ CHECKS = {
              "(+Newton, Riks): every array field has len(t) rows and the system dimension as width, list(sol) equals the rows, dill save/load preserves every field bit-exactly.",
         note="Trusted: a grid point within 1e-9*dt of t1 counts as 'at t1'. Truncated runs are not judged here (C21). Other systems/horizons are outside the alphabet.",
         design="§3 C20"),
+    "C06": dict(
+        level="exploration", engine="grid",
+        technique="exhaustive product enumeration of contact configurations x state letters through an assembled System; geometric reference kinematics + 5-point stencil derivative oracles",
+        text="Sphere-plane: orientation x plane motion x subsystem x radius x friction/anisotropy x offset x restitution; sphere-sphere: 8 partner pairs x radii x mu x separations; "
+             "inside each case positions (open/touching/penetrating/generic) x quaternion letters (non-unit, half turn) x (u,u_dot) letters. Gap = signed distance, slip = tangential velocity "
+             "of the touching material points (independent reference), g_N_dot/g_N_ddot/gamma_F_dot = time derivatives along the flow, W_N/W_F exact affine Jacobians, every exposed contact "
+             "derivative equals the stencil or raises NotImplementedError.",
+        note="Trusted: independent reference kinematics class (no cardillo code), stencil error estimate (ill-conditioned letters excluded and counted). Covers the enumerated alphabet only.",
+        design="§3 C06"),
+    "C07": dict(
+        level="exploration", engine="grid",
+        technique="exhaustive product enumeration of force elements x subsystem pairings x parameters x state/velocity letters; power-energy identities checked through an assembled System",
+        text="{Spring, KelvinVoigt, Maxwell} x TwoPointInteraction pairings / Revolute pairings x axes x parameter triples, Force on point mass/rigid body/rod, line loads, gyroscopic terms, "
+             "combined systems: h.u = -dE_pot/dt along the flow, passivity of damper elements, compliance residual at the force-form force, System.E_pot on 13 components and all 78 pairs.",
+        note="Trusted: 5-point stencil along the flow with measured error estimate; Revolute states constructed on the joint manifold (|g|<=1e-10 asserted).",
+        design="§3 C07"),
+    "C08": dict(
+        level="exploration", engine="grid",
+        technique="exhaustive product enumeration of force laws / forces / moments / actuators x subsystems x states; every reported Jacobian against exact-affine or 5-point-stencil derivatives through System",
+        text="h_q, h_u, c_q, c_u, c_la_c, Wla_c_q, Wla_tau_q, Wla_tau_u, q_dot_q, q_dot_u of Spring/KelvinVoigt (both forms), Maxwell, Force/B_Force/Moment/B_Moment, Motor/PD/PID "
+             "on the enumerated subsystems; every q direction differentiated.",
+        note="Trusted: stencil error estimate (verdict excludes ill-conditioned letters). Alphabet only.",
+        design="§3 C08"),
+    "C12": dict(
+        level="exploration", engine="grid",
+        technique="exhaustive product enumeration of material law x stiffness x reference strain x strain letters; complex-step and 5-point-stencil gradients of the strain energy; unisolvent point set makes the Simo1986 verdict a decision",
+        text="{Simo1986, Harsch2021} x 4 stiffness letters x 9 Gamma0 (lengths 0, 1/2, 1, 1.7, 2, generic) x 3 K0 x 9 Gamma x 3 K: forces = energy gradients, four tangents = force derivatives, "
+             "complementary energy/compliances = Legendre duals (Simo1986). For the quadratic Simo1986 law a 91-point unisolvent set in the 12 strain coordinates decides the identity.",
+        note="Trusted: complex step on the material kernels (validated against the real stencil at every evaluation). Harsch2021: alphabet only.",
+        design="§3 C12"),
+    "C13": dict(
+        level="exploration", engine="grid",
+        technique="complete enumeration of the quantified finite domain (degree 1..5 x element count 1..12 x knot partitions) with exact rational oracles",
+        text="All 230 knot configurations x every node/element boundary (+float neighbours)/midpoint/generic xi: partition of unity, zero-sum derivatives, Kronecker property, element lookup, "
+             "exact Lagrange values and derivatives in Fraction arithmetic; Gauss n=1..10 and Lobatto n=2..10 on 7 intervals exact up to degree 2n-1/2n-3 (and measurably inexact one degree above); "
+             "Mesh1D connectivity for Lagrange/Lagrange_Disc x dim_q/dim_u.",
+        note="Trusted: Fraction arithmetic oracles. The quantified domain is enumerated entirely; xi is a finite alphabet per configuration.",
+        design="§3 C13"),
+    "C14": dict(
+        level="model_checking", engine="statebfs",
+        technique="explicit-state exploration of all add/remove/pop/extend/assemble histories up to depth 4-5 on fresh real System objects vs a registry reference model and a dense reference scatter",
+        text="20-letter operation alphabet over a pool of 7 contributions (two same-named bodies, point mass, revolute, force, sphere-plane contact, synthetic contribution implementing every local "
+             "quantity): after every history names are unique, the registry maps exactly the current contributions, illegal operations raise and change nothing; after assemble the index sets "
+             "partition the coordinates, 65 System methods equal a dense reference scatter, a second assemble is bit-identical. Plus 26 contribution types alone and in all ordered pairs.",
+        note="Trusted: reference registry (list/dict) and dense scatter built from each contribution's own local quantities and DOF arrays. Histories deeper than the bound are not covered.",
+        design="§3 C14"),
+    "C16": dict(
+        level="exploration", engine="grid",
+        technique="exhaustive product enumeration of mechanisms x attachments x contact scenarios x initial states; residuals of the initial equations recomputed from System methods",
+        text="7 mechanisms x force-law/actuator attachments x 9 contact scenarios x {rest, spin}: equations of motion with all eight force terms, acceleration-level bilateral constraints, "
+             "acceleration-level Signorini/Coulomb conditions for persistent contacts; 20+ deliberately inconsistent variants must be rejected by assemble.",
+        note="Trusted: System's own evaluation methods for the residual terms (checked separately by C14). Alphabet only.",
+        design="§3 C16"),
+    "C24": dict(
+        level="fault_enumeration", engine="faults",
+        technique="crash-point enumeration: every split step k of N-step runs used as restart point (deepcopy + set_new_initial_state) on the real solvers, plus a simulation-free differential oracle on the re-initialised model",
+        text="8 scenarios (Revolute+Spherical chain, spring force/compliance, Kelvin-Voigt and PD controller on a revolute joint with angle0 != 0 in a generic frame, Maxwell element, ball on plane, "
+             "two spheres) x {Rattle, BackwardEuler, Moreau, ScipyIVP}: for every k the two-leg run must equal the uninterrupted run within 1e-6, re-initialisation must not raise, and the copy's "
+             "constraint/force-direction spaces, joint angle, force-law and actuator forces and contact kinematics must equal the original's along the remaining states.",
+        note="Trusted: tolerances tightened to 1e-10; force directions compared through range projectors (a joint/contact may use another basis of the same space); if assemble's 1e-8 consistency "
+             "check rejects a backward-Euler/Moreau state the library's own compute_consistent_initial_conditions=False switch is used and counted.",
+        design="§3 C24"),
+    "C27": dict(
+        level="exploration", engine="grid",
+        technique="exhaustive enumeration of vectors over many decades x radii x dimensions; all pairs for non-expansiveness, all feasible points for the projection inequality",
+        text="Negative orthant and scaled ball, n=1..4, x in {-1,0,1}^n x {1e-12,1e-6,1,1e6} + generic + mixed-scale, z in {-1,0,1e-12,1,1e6}, r in {0,.3,1}: feasibility, idempotence, "
+             "non-expansiveness on all 4.4M pairs, projection inequality against all feasible letters, degenerate ball, residual Jacobian vs stencil away from the active-set boundary, "
+             "estimate_prox_parameter positive/finite and equal to alpha/diag(W^T M^-1 W).",
+        note="Trusted: exact comparisons for the orthant, 1e-14 relative for the ball. Alphabet only.",
+        design="§3 C27"),
 }
 NOT_APPLICABLE = {}
